@@ -314,6 +314,10 @@ class GenericPlainRegistry(Generic[QuantityT, UnitT], metaclass=RegistryMeta):
         #: Map suffix name (string) to canonical , and unit alias to canonical unit name
         self._suffixes: dict[str, str] = {"": "", "s": ""}
 
+        #: Names of the prefixed units added to self._units on first use (see get_name).
+        #: They are a memo of prefix + unit, not units that can take a further prefix.
+        self._prefixed_unit_names: set[str] = set()
+
         #: Map contexts to RegistryCache
         self._cache = RegistryCache()
 
@@ -686,6 +690,7 @@ class GenericPlainRegistry(Generic[QuantityT, UnitT], metaclass=RegistryMeta):
                 prefix_def.converter,
                 self.UnitsContainer({unit_name: 1}),
             )
+            self._prefixed_unit_names.add(name)
             return prefix + unit_name
 
         return unit_name
@@ -1143,6 +1148,10 @@ class GenericPlainRegistry(Generic[QuantityT, UnitT], metaclass=RegistryMeta):
                         continue
                 if case_sensitive:
                     if name in self._units:
+                        if prefix and name in self._prefixed_unit_names:
+                            # e.g. 'kilo' + 'kilogram': accepted only after 'kilogram'
+                            # had been looked up, and with the prefix applied twice.
+                            continue
                         yield (
                             self._prefixes[prefix].name,
                             self._units[name].name,
